@@ -51,6 +51,8 @@ static std::string showStore(Store const& S){
 	for(auto const& v: S.v){ if(!first) s += " "; first = false; std::vector<double> x; for(std::size_t i = 0; i != v.size(); ++i) x.push_back(v(i)); s += showList(x.begin(), x.end()); }
 	for(auto const& m: S.A){ if(!first) s += " "; first = false; s += showMat(m); }
 	for(auto const& m: S.B){ if(!first) s += " "; first = false; s += showMat(m); }
+	for(std::size_t k = 0; k != S.s.size(); ++k){ if(!first) s += " "; first = false; OV x = o_s(S, k); s += "s" + showList(x.begin(), x.end()); }
+	for(std::size_t k = 0; k != S.C.size(); ++k){ if(!first) s += " "; first = false; OM m = o_C(S, k); std::ostringstream os; os << "s" << m.n1 << "x" << m.n2 << showList(m.x.begin(), m.x.end()); s += os.str(); }
 	return s;
 }
 static bool same(double a, double b){ return a == b || (std::isnan(a) && std::isnan(b)); }
@@ -71,6 +73,9 @@ static std::string diffStore(Store const& a, Store const& b){
 		for(std::size_t i = 0; i != a.B[k].size1(); ++i) for(std::size_t j = 0; j != a.B[k].size2(); ++j)
 			if(!same(a.B[k](i,j), b.B[k](i,j))){ os << "B" << k << "(" << i << "," << j << ")=" << showNum(a.B[k](i,j)) << "!=" << showNum(b.B[k](i,j)); return os.str(); }
 	}
+	if(a.s.size() != b.s.size() || a.C.size() != b.C.size()) return "store-shape";
+	for(std::size_t k = 0; k != a.s.size(); ++k){ OV x = o_s(a,k), y = o_s(b,k); if(x.size() != y.size()){ os << "s" << k << ".size"; return os.str(); } for(std::size_t i = 0; i != x.size(); ++i) if(!same(x[i],y[i])){ os << "s" << k << "(" << i << ")"; return os.str(); } }
+	for(std::size_t k = 0; k != a.C.size(); ++k){ OM x = o_C(a,k), y = o_C(b,k); if(x.n1 != y.n1 || x.n2 != y.n2){ os << "C" << k << ".size"; return os.str(); } for(std::size_t i = 0; i != x.x.size(); ++i) if(!same(x.x[i],y.x[i])){ os << "C" << k << "[" << i << "]"; return os.str(); } }
 	return "";
 }
 
@@ -103,6 +108,35 @@ int main(){
 			if(t[1] == "A"){ MatA m(n1,n2); for(std::size_t i = 0; i != n1; ++i) for(std::size_t j = 0; j != n2; ++j){ double x; ok = ok && parseNum(t[4+i*n2+j], x); m(i,j) = x; } S.A.push_back(m); }
 			else if(t[1] == "B"){ MatB m(n1,n2); for(std::size_t i = 0; i != n1; ++i) for(std::size_t j = 0; j != n2; ++j){ double x; ok = ok && parseNum(t[4+i*n2+j], x); m(i,j) = x; } S.B.push_back(m); }
 			else ok = false;
+			line_out << (ok ? "ok\n" : "bad-op\n"); continue;
+		}
+		if(t[0] == "svec" && t.size() >= 2){
+			// built the way client code builds sparse points: fill a local vector, store a copy
+			std::size_t n = std::stoull(t[1]); bool ok = true;
+			{
+				SVec x(n);
+				for(std::size_t k = 2; k < t.size(); ++k){
+					std::size_t c = t[k].find(':'); double val;
+					if(c == std::string::npos || !parseNum(t[k].substr(c+1), val)){ ok = false; break; }
+					x.set_element(x.end(), std::stoull(t[k].substr(0,c)), val);
+				}
+				if(ok) S.s.push_back(x);
+			}
+			line_out << (ok ? "ok\n" : "bad-op\n"); continue;
+		}
+		if(t[0] == "smat" && t.size() >= 3){
+			// default-construct, resize, fill row by row, copy-assign into the store
+			std::size_t n1 = std::stoull(t[1]), n2 = std::stoull(t[2]); bool ok = true;
+			{
+				SMat m; m.resize(n1, n2);
+				for(std::size_t k = 3; k < t.size(); ++k){
+					std::size_t a = t[k].find(','), c = t[k].find(':'); double val;
+					if(a == std::string::npos || c == std::string::npos || !parseNum(t[k].substr(c+1), val)){ ok = false; break; }
+					std::size_t i = std::stoull(t[k].substr(0,a)), j = std::stoull(t[k].substr(a+1, c-a-1));
+					m.set_element(m.major_end(i), j, val);
+				}
+				if(ok){ S.C.push_back(SMat(n1, n2)); S.C.back() = m; }
+			}
 			line_out << (ok ? "ok\n" : "bad-op\n"); continue;
 		}
 		if((t[0] == "stmt" || t[0] == "red") && t.size() >= 3){
